@@ -216,6 +216,115 @@ def run_real(rng, nsenders, nind, ncb, maxq, slow):
                 schedule=[], chooser="os")
 
 
+def run_real_inflight(rng, ncb, registration):
+    """Real sockets: a request whose body is still arriving when stop() is
+    called (a slow sender).  stop() must not return while the request is
+    being handled; an acknowledged indication must have been delivered.
+    `registration`: how callbacks are registered - plain functions, bound
+    methods, or bound methods registered twice (add_callback documents that
+    a callback that is already registered is not added again)."""
+    import pywbem
+    events = []
+    lock = threading.Lock()
+
+    def emit(**e):
+        with lock:
+            events.append(e)
+
+    class Sink:
+        def __init__(self, c):
+            self.c = c
+
+        def on_indication(self, ind, host):
+            emit(ev="deliver", c=self.c, s=ind["Sender"], n=int(ind["Seq"]))
+
+    listener = None
+    for _ in range(5):
+        port = free_port()
+        listener = pywbem.WBEMListener("127.0.0.1", http_port=port)
+        sinks = [Sink(c) for c in range(1, ncb + 1)]
+        for k in sinks:
+            if registration == "function":
+                listener.add_callback(
+                    lambda ind, host, k=k: k.on_indication(ind, host))
+            else:
+                listener.add_callback(k.on_indication)
+        if registration == "method-twice":
+            for k in sinks:
+                listener.add_callback(k.on_indication)
+        try:
+            listener.start()
+            break
+        except pywbem.ListenerPortError:
+            listener = None
+    if listener is None:
+        raise vlib.MachineryError("no free loopback port for the real tier")
+    emit(ev="started", ncb=ncb, ok=True)
+    body = S.export_request("s1", 1)
+    head = ("POST / HTTP/1.1\r\nHost: x\r\nContent-Type: application/xml; "
+            "charset=utf-8\r\nCIMExport: MethodRequest\r\n"
+            "CIMExportMethod: ExportIndication\r\nContent-Length: %d\r\n"
+            "Connection: close\r\n\r\n" % len(body)).encode("ascii")
+    cut = rng.randint(1, len(body) - 1)
+    so = socket.create_connection(("127.0.0.1", port), timeout=15)
+    emit(ev="req", s="s1", n=1)
+    so.sendall(head + body[:cut])
+    time.sleep(0.15)         # the handler thread is now reading the body
+
+    def stopper():
+        try:
+            listener.stop()
+            exc = ""
+        except Exception as e:  # noqa
+            exc = type(e).__name__
+        left = [t for t in threading.enumerate()
+                if t.name in ("CallbackThread", "http", "https") and
+                t.is_alive()]
+        emit(ev="stop_returned", exc=exc, threads=len(left),
+             server_closed=True)
+    st = threading.Thread(target=stopper)
+    st.start()
+    time.sleep(0.4)          # stop() is in progress (or, wrongly, finished)
+    kind = "dropped"
+    try:
+        so.sendall(body[cut:])
+        data = b""
+        while True:
+            chunk = so.recv(65536)
+            if not chunk:
+                break
+            data += chunk
+        kind = S.classify_response(data)
+    except Exception:  # noqa
+        kind = "dropped"
+    finally:
+        so.close()
+    emit(ev="resp", s="s1", n=1, kind=kind)
+    st.join(30)
+    if st.is_alive():
+        emit(ev="stop_returned", exc="StopHangs", threads=1,
+             server_closed=False)
+    time.sleep(0.2)
+    emit(ev="end", outcome="done")
+    # the response event is logged when the sender has read it; stop() may
+    # legitimately return between the handler's last byte and that moment:
+    # order the stop event after the response it waited for
+    evs = list(events)
+    i_stop = next((i for i, e in enumerate(evs)
+                   if e["ev"] == "stop_returned"), None)
+    i_resp = next((i for i, e in enumerate(evs) if e["ev"] == "resp"), None)
+    ndel = sum(1 for e in evs if e["ev"] == "deliver")
+    if i_stop is not None and i_resp is not None and i_stop < i_resp and \
+            evs[i_resp]["kind"] == "ok" and ndel >= ncb:
+        # acknowledged and delivered to every callback: only the sender's
+        # reading of the response was late
+        r = evs.pop(i_resp)
+        evs.insert(i_stop, r)
+    return dict(params=dict(inflight=True, ncb=ncb, registration=registration,
+                            cut=cut), outcome="done", events=norm(evs),
+                schedule=[], chooser="os")
+
+
 def signature(ev, clauses):
     s = "%s:%s" % (ev["ev"], "+".join(sorted(clauses)))
     if ev["ev"] == "stop_returned" and ev["exc"]:
@@ -263,6 +372,9 @@ def run(ctx):
     n_pct = 250 if quick else 6000
     for i in range(n_pct):
         runs.append(run_scenario(ctx.rng, "pct" if i % 2 else "random"))
+    for reg in ("function", "method", "method-twice"):
+        for i in range(1 if quick else 6):
+            runs.append(run_real_inflight(ctx.rng, ctx.rng.randint(1, 2), reg))
     n_real = 4 if quick else 40
     for i in range(n_real):
         runs.append(run_real(ctx.rng, ctx.rng.randint(1, 3),
